@@ -198,3 +198,37 @@ Proof.
   - now apply forallb_forall.
   - apply existsb_exists in H2 as (x & Hx & E). apply String.eqb_eq in E. now subst.
 Qed.
+
+(* ---------------------------------------------------------------- mixed histories on the store *)
+
+Lemma store_apply_validate id v st : store_apply id (XServerValidate v) st = store_validate id v st.
+Proof.
+  induction st as [|[k f] r IH]; [reflexivity|]. cbn [store_apply store_validate]. now rewrite IH.
+Qed.
+
+Lemma store_apply_fixed id o st : store_ok st = true -> store_apply id o st = st.
+Proof.
+  induction st as [|[k f] r IH]; intros H; [reflexivity|].
+  cbn [store_ok forallb snd] in H. apply andb_prop in H as [Hf Hr].
+  cbn [store_apply]. destruct (bytes_eqb id k).
+  - rewrite xstep_fixed; [reflexivity|]. now apply install_fix_iff.
+  - now rewrite (IH Hr).
+Qed.
+
+Lemma serve_x_history_fixed rqs st : store_ok st = true -> fold_left serve_x rqs st = st.
+Proof.
+  induction rqs as [|rq rqs IH]; intros H; [reflexivity|].
+  cbn [fold_left]. assert (E : serve_x st rq = st) by (destruct rq; apply store_apply_fixed; exact H).
+  rewrite E. now apply IH.
+Qed.
+
+Lemma serve_x_history_observe rqs st : store_ok st = true ->
+  store_observe (fold_left serve_x rqs st) = store_observe st.
+Proof. intros H. now rewrite serve_x_history_fixed. Qed.
+
+Lemma run_srqs_last rqs : forall st d, last (run_srqs st rqs) d = match rqs with [] => d | _ => fold_left serve_x rqs st end.
+Proof.
+  induction rqs as [|rq rqs IH]; intros st d; [reflexivity|].
+  cbn [run_srqs fold_left]. destruct rqs as [|rq2 rqs]; [reflexivity|].
+  specialize (IH (serve_x st rq) d). cbn [run_srqs] in *. exact IH.
+Qed.
